@@ -3,6 +3,7 @@ package schema
 import (
 	"encoding/json"
 	"fmt"
+	"math"
 	"reflect"
 	"strings"
 )
@@ -224,9 +225,15 @@ func (o *ObjectSchema) unserializeToStruct(rawData map[string]any) (any, error) 
 			}()
 			if field.Kind() == reflect.Pointer && v.Kind() != reflect.Pointer {
 				f = reflect.New(f.Type().Elem())
+				if integerOverflowsType(v, f.Elem().Type()) {
+					panic(fmt.Errorf("%v does not fit into a field of type %s", val, f.Elem().Type().String()))
+				}
 				f.Elem().Set(v.Convert(f.Elem().Type()))
 				field.Set(f)
 			} else {
+				if integerOverflowsType(v, f.Type()) {
+					panic(fmt.Errorf("%v does not fit into a field of type %s", val, f.Type().String()))
+				}
 				f.Set(v.Convert(f.Type()))
 			}
 		}()
@@ -246,6 +253,30 @@ func (o *ObjectSchema) unserializeToStruct(rawData map[string]any) (any, error) 
 		result = reflectedValue.Interface()
 	}
 	return result, nil
+}
+
+// integerOverflowsType reports whether an integer value is outside the range of the integer type it is about to be
+// converted to. The conversion itself would silently wrap around (300 becomes 44 in an int8 or uint8 field, -1
+// becomes the largest value of an unsigned field).
+func integerOverflowsType(v reflect.Value, target reflect.Type) bool {
+	zero := reflect.Zero(target)
+	switch target.Kind() {
+	case reflect.Int, reflect.Int8, reflect.Int16, reflect.Int32, reflect.Int64:
+		switch {
+		case v.CanInt():
+			return zero.OverflowInt(v.Int())
+		case v.CanUint():
+			return v.Uint() > math.MaxInt64 || zero.OverflowInt(int64(v.Uint()))
+		}
+	case reflect.Uint, reflect.Uint8, reflect.Uint16, reflect.Uint32, reflect.Uint64, reflect.Uintptr:
+		switch {
+		case v.CanInt():
+			return v.Int() < 0 || zero.OverflowUint(uint64(v.Int()))
+		case v.CanUint():
+			return zero.OverflowUint(v.Uint())
+		}
+	}
+	return false
 }
 
 func (o *ObjectSchema) serializeMap(data map[string]any) (any, error) {
